@@ -435,6 +435,10 @@ impl<A: Elem, B: Elem> VecPair<A, B> {
     }
 
     pub fn exec(&mut self, bump: &'static Bump, op: &VOp) -> OpOutcome {
+        crate::w2_ops::set_spare(match self.b.as_ref() {
+            Some(v) if !A::ZST => v.capacity().saturating_sub(v.len()),
+            _ => 0,
+        });
         match op {
             VOp::IterNext { back } => {
                 if let Some((bi, si)) = self.held_it.as_mut() {
